@@ -1,10 +1,44 @@
 import TempestVerif.Drv.Util
-/- line-protocol handlers of property C13 (stub: no commands yet) -/
+import TempestVerif.Model.Dispatch
+import TempestVerif.Gen.Dispatch
+/- line-protocol handlers of property C13.
+   disp.how vec=<0|1> pool=<none|int:k|obj>     → direct | map | poolMap | error
+   calls.run np=<n_particles> nw=<n_walkers> ops=<w | m:<steps>>;…   → <calls> <evaluated> | error
+-/
 namespace Drv.C13
-open Drv
+open Drv Model.Dispatch
+
+def parsePool? (s : String) : Option PoolCfg :=
+  match s.splitOn ":" with
+  | ["none"] => some .none
+  | ["obj"] => some .obj
+  | ["int", k] => k.toNat?.map .int
+  | _ => none
+
+def parseOp? (s : String) : Option Op :=
+  match s.splitOn ":" with
+  | ["w"] => some .warmup
+  | ["m", k] => k.toNat?.map .mcmc
+  | _ => none
+
+def callTable : CallTable :=
+  ⟨Gen.Dispatch.warmupIncrement, Gen.Dispatch.warmupBatch, Gen.Dispatch.stepIncrement, Gen.Dispatch.stepBatch⟩
 
 def handle (cmd : String) (args : List (String × String)) : Option String :=
   match cmd with
+  | "disp.how" =>
+    match (getArg args "vec").map (· == "1"), (getArg args "pool").bind parsePool? with
+    | some v, some p =>
+      some (match logLikeHow Gen.Dispatch.logLike Gen.Dispatch.distribute ⟨v, p⟩ with
+        | some .direct => "direct" | some .map => "map" | some .poolMap => "poolMap" | none => "error")
+    | _, _ => some "bad-op"
+  | "calls.run" =>
+    match (getArg args "np").bind String.toNat?, (getArg args "nw").bind String.toNat?,
+          (getArg args "ops").bind fun s => if s == "-" then some [] else (s.splitOn ";").mapM parseOp? with
+    | some np, some nw, some ops =>
+      some (match runAcc callTable ⟨np, nw⟩ ⟨0, 0⟩ ops with
+        | some a => s!"{a.calls} {a.evaluated}" | none => "error")
+    | _, _, _ => some "bad-op"
   | _ => none
 
 end Drv.C13
